@@ -1215,8 +1215,11 @@ class ModelBuilder:
                     return None
             return current  # type: ignore[return-value]
         else:
-            # Search from project root
-            for task in project.tasks:
+            # Search from project root. An absolute reference starts at a top-level task;
+            # only if there is none with that id, any task with that local id is accepted
+            # (a nested task that merely shares the id must not capture the reference).
+            candidates = [t for t in project.tasks if t.parent is None] + [t for t in project.tasks if t.parent is not None]
+            for task in candidates:
                 if task.id == parts[0]:
                     if len(parts) == 1:
                         return task  # type: ignore[return-value]
